@@ -449,9 +449,13 @@ class Convert:
     @staticmethod
     def args(draw, t):
         hdr = t[0]
-        form = draw(st.sampled_from(["field-fn", "fields-fn", "dict", "list", "dictconv", "method", "where", "passrow", "where-passrow"]))
+        form = draw(st.sampled_from(["field-fn", "fields-fn", "dict", "list", "dictconv", "method", "where", "passrow", "where-passrow",
+                                      "dict-mixed", "where-str"]))
         a = {"form": form, "fn": draw(st.sampled_from(["tag", "str", "none"]))}
-        if form in ("field-fn", "dictconv", "method", "where", "passrow", "where-passrow"):
+        if form == "dict-mixed":
+            # a different conversion per field: a function, a method name with arguments, a dictionary
+            a["field"] = fieldspec(draw, hdr, max_n=3)
+        elif form in ("field-fn", "dictconv", "method", "where", "passrow", "where-passrow", "where-str"):
             a["field"] = fieldspec(draw, hdr, max_n=1)[0]
         elif form == "fields-fn":
             a["field"] = fieldspec(draw, hdr, max_n=2)
@@ -467,6 +471,10 @@ class Convert:
     @staticmethod
     def _where(rec):
         return rec[0] is not None
+
+    @staticmethod
+    def _mixed(f):
+        return [f, lambda v: ("second", v), {None: "was-none", 1: "one"}]
 
     @staticmethod
     def run(t, a):
@@ -486,6 +494,14 @@ class Convert:
             return etl.convert(etl.convert(t, a["field"], conv("str")), a["field"], "replace", "x", "Y")
         if form == "where":
             return etl.convert(t, a["field"], f, where=Convert._where)
+        if form == "where-str":
+            # where= as an expression string over the first field (when its name can be written in one)
+            n0 = t[0][0]
+            if isinstance(n0, str) and n0.isidentifier() and [str(x) for x in t[0]].count(n0) == 1:
+                return etl.convert(t, a["field"], f, where="{%s} is not None" % n0)
+            return etl.convert(t, a["field"], f, where=Convert._where)
+        if form == "dict-mixed":
+            return etl.convert(t, dict(zip(a["field"], Convert._mixed(f))))
         if form == "where-passrow":
             # both features together; the converter reads the row by position, by name and by attribute
             name0 = t[0][0]
@@ -501,16 +517,22 @@ class Convert:
 
         def first_index(k):
             return k if isinstance(k, int) and not isinstance(k, bool) else [str(x) for x in hdr].index(k)
+        per = {}
+        if form == "dict-mixed":
+            # (when two specs name the same column the later dict entry wins for a name/index pair of different text;
+            # the generator's fieldspec gives distinct columns)
+            for k, c in zip(a["field"], Convert._mixed(f)):
+                per[first_index(k)] = c
         if form == "list":
             idx = list(range(a["n"]))
-        elif form in ("fields-fn", "dict"):
+        elif form in ("fields-fn", "dict", "dict-mixed"):
             idx = [first_index(k) for k in a["field"]]
         else:
             idx = [first_index(a["field"])]
         out = [tuple(hdr)]
         for r in t[1:]:
             r = tuple(r)
-            if form in ("where", "where-passrow") and not (len(r) > 0 and r[0] is not None):
+            if form in ("where", "where-passrow", "where-str") and not (len(r) > 0 and r[0] is not None):
                 out.append(r)
                 continue
             o = []
@@ -525,6 +547,9 @@ class Convert:
                         v = ("pr", v, len(r))
                     elif form == "where-passrow":
                         v = ("pr", v, len(r), r[0], r[0])
+                    elif form == "dict-mixed":
+                        c = per[i]
+                        v = (c[v] if _hashable(v) and v in c else v) if isinstance(c, dict) else c(v)
                     else:
                         v = f(v)
                 o.append(v)
